@@ -413,6 +413,10 @@ def check(pid, tier, seed, replay=None):
     if not samples and evaluations:
         samples.append("(no non-trivial sample)")
 
+    if replay is not None and evaluations == 0:
+        infra("the replay file produced no case (line kinds the replayer understands: def/tok, rewrite, csv, image, train GEN, "
+              "conn KIND, corpus parse, extract EXPAND/MECAB)")
+
     # 4. verdict
     known = [k for k in load_known() if k.get("property") == pid and k.get("status") == "known"]
     rc = 0
